@@ -329,6 +329,29 @@ impl Explorer {
                     res = Err(ImageVerdict { oracle: iv.oracle, detail: format!("second crash, during the transaction that followed recovery (kill before event {} of it): {}", cut, iv.detail) });
                     break 'outer;
                 }
+                // power: the header write of the follow-up commit torn at 8-byte words (all
+                // prefixes and every single word), on top of everything issued before it
+                if cut < second_log.len() {
+                    if let Ev::Write { off, .. } = &second_log[cut] {
+                        if *off < 2 * self.pagesize {
+                            let tail = 1u64 << 63;
+                            let mut masks: Vec<u64> = Vec::new();
+                            for w in 1..13u32 {
+                                masks.push((1u64 << w) - 1);
+                                masks.push((1u64 << w) | tail);
+                            }
+                            for m in masks {
+                                let mut t = im.clone();
+                                t.apply(&second_log[cut], Some(&Tear::Words(m)));
+                                self.count("second_level_word_tears");
+                                if let Err(iv) = self.judge(&t.data, t.len, &[&recovered, &post], false) {
+                                    res = Err(ImageVerdict { oracle: iv.oracle, detail: format!("second crash (power loss tearing the header write, words {:x}) during the transaction that followed recovery: {}", m, iv.detail) });
+                                    break 'outer;
+                                }
+                            }
+                        }
+                    }
+                }
                 // power: at a sync, subsets of the epoch that ends here
                 if cut < second_log.len() && matches!(second_log[cut], Ev::Sync { .. }) {
                     let start = second_log[..cut].iter().rposition(|e| matches!(e, Ev::Sync { .. })).map(|p| p + 1).unwrap_or(0);
